@@ -260,8 +260,8 @@ func (c *Ctx) Case(n uint64) bool {
 // Rand is the PRNG of case n of the current phase.
 func (c *Ctx) Rand(n uint64) *prng.R { return prng.New(c.Seed, c.Prop.ID, c.base+n) }
 
-func (c *Ctx) Eval(n int64)              { c.evals += n }
-func (c *Ctx) Count(key string)          { c.cov[key]++ }
+func (c *Ctx) Eval(n int64)               { c.evals += n }
+func (c *Ctx) Count(key string)           { c.cov[key]++ }
 func (c *Ctx) CountN(key string, n int64) { c.cov[key] += n }
 func (c *Ctx) Max(key string, v float64) {
 	if v > c.maxes[key] {
